@@ -2,6 +2,7 @@ package props
 
 import (
 	"fmt"
+	"github.com/advancedclimatesystems/gonnx"
 	"math"
 	"strings"
 
@@ -250,7 +251,32 @@ func genBatchModel(r *gen.R) *batchModel {
 				add(progNode{G: mon.GNode{Op: "MatMul", Inputs: []string{cur, w}}, Mode: CmpTol, Eval: approxEval(func(in []*ref.T) (*ref.Approx, error) { return ref.MatMul(in[0], in[1]) })}, axis)
 			}
 		case 3: // Gemm (rank 2, batch axis 0)
-			if rank == 2 && axis == 0 {
+			if rank == 2 && axis == 0 && r.Chance(0.3) {
+				// the weights on the left, the batch as the transposed second operand: one column per sample
+				m := r.Range(1, 4)
+				w := p.addInit("W", p.smallWeights([]int{m, xv.Shape[1]}, 1))
+				ins := []string{w, cur}
+				if r.Bool() {
+					ins = append(ins, p.addInit("b", p.smallWeights(r.PickShape([]int{m, 1}, []int{}, []int{1, 1}), 1)))
+				}
+				added := add(progNode{G: mon.GNode{Op: "Gemm", Inputs: ins, Attrs: []*mon.Attr{mon.AttrI("transB", 1)}}, Mode: CmpTol, Eval: approxEval(func(in []*ref.T) (*ref.Approx, error) {
+					var bias *ref.T
+					if len(in) > 2 {
+						bias = in[2]
+					}
+					return ref.Gemm(in[0], in[1], bias, 1, 1, false, true)
+				})}, 1)
+				if !added {
+					break
+				}
+				if r.Bool() { // and back: the columns transposed by a second Gemm
+					n := r.Range(1, 4)
+					w2 := p.addInit("W", p.smallWeights([]int{m, n}, 1))
+					add(progNode{G: mon.GNode{Op: "Gemm", Inputs: []string{cur, w2}, Attrs: []*mon.Attr{mon.AttrI("transA", 1)}}, Mode: CmpTol, Eval: approxEval(func(in []*ref.T) (*ref.Approx, error) { return ref.Gemm(in[0], in[1], nil, 1, 1, true, false) })}, 0)
+				} else {
+					k = 1 // the batch is on the last axis now: the chain ends here
+				}
+			} else if rank == 2 && axis == 0 {
 				n := r.Range(1, 4)
 				w := p.addInit("W", p.smallWeights([]int{xv.Shape[1], n}, 1))
 				b := p.addInit("b", p.smallWeights(r.PickShape([]int{n}, []int{n}, []int{1, n}, []int{}), 1))
@@ -401,10 +427,27 @@ func c16Run(c *Ctx) {
 		}
 	}
 	c.Count(fmt.Sprintf("one-loaded-model:%v", sess != nil), 1)
+	// a caller that keeps its input buffers: the permuted batch is written into the tensor
+	// objects of the first Run (same shapes), on the same loaded model
+	var held gonnx.Tensors
+	if sess != nil && relation == "permute" && c.Idx%4 == 1 {
+		held = gonnx.Tensors{}
+		for k, v := range feed {
+			held[k] = mon.ToTensor(v)
+		}
+		c.Count("permuted-batch-written-into-the-same-input-tensors", 1)
+	}
 	run := func(f map[string]*ref.T) (map[string]*ref.T, mon.Outcome) {
 		g := spec.Outputs
 		var o mon.Outcome
-		if sess != nil {
+		if held != nil {
+			for k, v := range f {
+				if t, ok := held[k]; !ok || !ref.ShapeEq([]int(t.Shape()), v.Shape) || !mon.Overwrite(t, v) {
+					held[k] = mon.ToTensor(v)
+				}
+			}
+			o = sess.RunTensors(held, g)
+		} else if sess != nil {
 			o = sess.Run(f, g)
 		} else {
 			o = mon.RunBytes(spec.Bytes, f, g)
